@@ -66,6 +66,14 @@ fn main() {
         "c09" => c09::run(seed, tier, &mut w),
         "c18stark" => c09::run_c18stark(seed, tier, &mut w),
         "c10" => c10::run(seed, tier, &mut w),
+        // the malformed-input lines of the multi-table entry alone (judged by C18)
+        "c18ctl" => {
+            let mut buf: Vec<u8> = vec![];
+            c10::run(seed, "quick", &mut buf);
+            let mut k = 0;
+            for line in String::from_utf8_lossy(&buf).lines().filter(|l| l.starts_with("c18ctl ")) { writeln!(w, "{line}").unwrap(); k += 1; }
+            k
+        }
         "c18" => c18::run(seed, tier, &mut w),
         "c03" => c03::run(seed, tier, &mut w),
         "c16" => c16::run(seed, tier, &mut w),
